@@ -52,15 +52,19 @@ ExtForms == { Php, PHP, <<".","P","h","p">>, <<".","t","x","t">>, <<>> }
 Trails   == { <<>>, <<" ">>, <<".">>, <<" ",".">>, <<"/">>, <<"/","i">>, <<"/","i">> \o Php, <<"/",".">> }
 Requests == { p \o n \o e \o t : p \in Prefixes, n \in Names, e \in ExtForms, t \in Trails }
 
-VARIABLES rpath, ext, split, hasIndex,     \* the rule
+VARIABLES rpath, ext, split, hasIndex,     \* the (first) rule
+          exc,                              \* its `except` path, relative to rpath (<<>> = none)
+          second,                           \* TRUE: a second rule, for path /a, written after it (same ext / split, no index)
           req,                              \* r.URL.Path
+          ri,                               \* the rule the loop of Handler.ServeHTTP is looking at (1 or 2)
           pc, fpath, result, script, info
-vars == <<rpath, ext, split, hasIndex, req, pc, fpath, result, script, info>>
-cfgvars == <<rpath, ext, split, hasIndex, req>>
+vars == <<rpath, ext, split, hasIndex, exc, second, req, ri, pc, fpath, result, script, info>>
+cfgvars == <<rpath, ext, split, hasIndex, exc, second, req>>
 
 Init ==
     /\ rpath \in RulePaths /\ ext \in Exts /\ split \in {<<>>, ext} /\ hasIndex \in BOOLEAN
-    /\ req \in Requests
+    /\ exc \in {<<>>, <<"/","a">>} /\ second \in BOOLEAN /\ (second => exc # <<>>)
+    /\ req \in Requests /\ ri = 1
     /\ pc = "match" /\ fpath = <<>> /\ result = "none" /\ script = <<>> /\ info = <<>>
 
 \* httpserver.Path.Matches(base): clean both sides, restore the trailing slash, compare in lower case
@@ -72,33 +76,45 @@ PathMatches(p, base) ==
     ELSE LET c == CleanReq(p) \o (IF p[Len(p)] = "/" THEN <<"/">> ELSE <<>>)
          IN  HasPrefix(LowerSeq(c), LowerSeq(base))
 
+\* the rule the loop looks at: the first one as configured; the second one (if any) is for /a, has the same
+\* extension and split string, no index file and no except
+RPath == IF ri = 1 THEN rpath ELSE <<"/","a">>
+RExc  == IF ri = 1 THEN exc ELSE <<>>
+RIdx  == ri = 1 /\ hasIndex
+\* Rule.AllowedPath: the request path, cleaned, must not lie under path.Join(rule path, except)
+JoinPath(a, b) == IF a = <<"/">> THEN b ELSE a \o b
+Excepted == RExc # <<>> /\ HasPrefix(LowerSeq(CleanReq(req)), LowerSeq(JoinPath(RPath, RExc)))
+\* `continue`: on to the next rule, or to the next handler when there is none
+Continue == IF ri = 1 /\ second
+              THEN ri' = 2 /\ pc' = "match" /\ fpath' = <<>> /\ UNCHANGED result
+              ELSE pc' = "done" /\ result' = "next" /\ UNCHANGED <<ri, fpath>>
+
 Match ==
     /\ pc = "match"
-    /\ IF PathMatches(req, rpath)
-         THEN pc' = "trim" /\ UNCHANGED result
-         ELSE pc' = "done" /\ result' = "next"              \* continue -> h.Next
-    /\ UNCHANGED <<cfgvars, fpath, script, info>>
+    /\ IF PathMatches(req, RPath) /\ ~Excepted
+         THEN pc' = "trim" /\ UNCHANGED <<result, ri, fpath>>
+         ELSE Continue
+    /\ UNCHANGED <<cfgvars, script, info>>
 
 Trim ==
     /\ pc = "trim"
     /\ fpath' = TrimRightSpDot(req)
     /\ pc' = "index"
-    /\ UNCHANGED <<cfgvars, result, script, info>>
+    /\ UNCHANGED <<cfgvars, ri, result, script, info>>
 
 \* httpserver.IndexFile: only for a path with a trailing slash; path.Join(fpath, index) must open
 Index ==
     /\ pc = "index"
     /\ LET cand == fpath \o IndexName
-           found == hasIndex /\ fpath # <<>> /\ fpath[Len(fpath)] = "/" /\ cand \in Files
+           found == RIdx /\ fpath # <<>> /\ fpath[Len(fpath)] = "/" /\ cand \in Files
        IN  IF found
-             THEN /\ fpath' = cand
+             THEN /\ fpath' = cand /\ UNCHANGED ri
                   /\ IF IndexOf(LowerSeq(cand), LowerSeq(split)) > 0
                        THEN pc' = "decide" /\ UNCHANGED result
                        ELSE pc' = "done" /\ result' = "err500"  \* ErrIndexMissingSplit
-             ELSE /\ UNCHANGED fpath
-                  /\ IF IndexOf(LowerSeq(fpath), LowerSeq(split)) > 0
-                       THEN pc' = "decide" /\ UNCHANGED result
-                       ELSE pc' = "done" /\ result' = "next"    \* cannot split: continue
+             ELSE IF IndexOf(LowerSeq(fpath), LowerSeq(split)) > 0
+                    THEN pc' = "decide" /\ UNCHANGED <<result, ri, fpath>>
+                    ELSE Continue                                  \* cannot split: continue
     /\ UNCHANGED <<cfgvars, script, info>>
 
 Decide ==
@@ -109,10 +125,10 @@ Decide ==
                   sn == SubSeq(fpath, 1, sp + Len(split))
               IN  /\ script' = IF sn = <<>> THEN <<"/">> ELSE sn        \* path.Join(site path prefix "/", scriptName)
                   /\ info' = SubSeq(fpath, sp + Len(split) + 1, Len(fpath))
-                  /\ result' = "responder"
-         ELSE /\ result' = "next" /\ UNCHANGED <<script, info>>
-    /\ pc' = "done"
-    /\ UNCHANGED <<cfgvars, fpath>>
+                  /\ result' = "responder" /\ pc' = "done" /\ UNCHANGED <<ri, fpath>>
+         ELSE \* the loop body ends without serving: on to the next rule
+              /\ Continue /\ UNCHANGED <<script, info>>
+    /\ UNCHANGED cfgvars
 
 Next == Match \/ Trim \/ Index \/ Decide
 Spec == Init /\ [][Next]_vars /\ WF_vars(Next)
@@ -124,7 +140,16 @@ UnderRule == rpath = <<"/">> \/
                /\ (Len(req) = Len(rpath) \/ req[Len(rpath) + 1] = "/") )
 \* "an existing file with the rule's extension (in any letter case)"
 ExistingScript == req \in Files /\ HasSuffix(LowerSeq(req), LowerSeq(ext))
-ExistingScriptNeverStatic == (pc = "done" /\ UnderRule /\ ExistingScript) => result = "responder"
+\* ... of some rule: under its path and not under its except
+UnderPath(b) == b = <<"/">> \/ ( /\ HasPrefix(LowerSeq(req), LowerSeq(b))
+                                /\ (Len(req) = Len(b) \/ req[Len(b) + 1] = "/") )
+\* (the statement does not speak of `except`; an excepted path is one the operator took out of the rule, by
+\* the prefix rule the documentation gives for it)
+Excepted1 == exc # <<>> /\ HasPrefix(LowerSeq(CleanReq(req)), LowerSeq(JoinPath(rpath, exc)))
+OwnedBy1 == UnderRule /\ ~Excepted1
+OwnedBy2 == second /\ UnderPath(<<"/","a">>)
+Owned == OwnedBy1 \/ OwnedBy2
+ExistingScriptNeverStatic == (pc = "done" /\ Owned /\ ExistingScript) => result = "responder"
 \* "script name and path info split at the configured split string"
 SplitAtSplitString ==
     (pc = "done" /\ result = "responder" /\ split # <<>>) =>
@@ -138,7 +163,7 @@ Terminates == <>(pc = "done")
 
 \* ---- emission: one CASE per (rule, request) at the end of its behaviour ---------------
 Emit == pc = "done" =>
-    PrintT(<<"CASE", ToJson([rpath |-> rpath, ext |-> ext, split |-> split, index |-> hasIndex, req |-> req,
+    PrintT(<<"CASE", ToJson([rpath |-> rpath, ext |-> ext, split |-> split, index |-> hasIndex, exc |-> exc, second |-> second, req |-> req,
                              result |-> result, fpath |-> fpath, script |-> script, info |-> info,
-                             under |-> UnderRule, existing |-> ExistingScript])>>)
+                             under |-> Owned, existing |-> ExistingScript])>>)
 =============================================================================
